@@ -205,6 +205,9 @@ MATCHERS = {"backtick_content_trailing_odd_backslashes": _m_backslash}
 
 
 # ------------------------------------------------------------------ python normalisation (PyNorm.tla)
+EXOTIC = ["\u00b5g", "\ufb01eld", "x\u00b2", "\u2460", "\u00aa", "\U0001d431", "\u00e9", "\u53d8\u91cf"]
+
+
 def replay_pynorm(case):
     """One expression of MC_PyNorm: its canonical text and re-spacings of it, call-style and brace-quoted, must normalise to the
     model's normal form (quoted names verbatim), as one python token and as a factor of a parsed formula."""
@@ -212,23 +215,35 @@ def replay_pynorm(case):
     from formulaic.parser.algos.sanitize_tokens import sanitize_tokens
     from formulaic.parser.algos.tokenize import tokenize
 
-    text = case["text"]
-    spaced = text.replace("(", "( ").replace(")", " )").replace(",", " ,")
+    import re
+
+    text0 = case["text"]
+    # the model's character classes are concretised further: one quoted name at a time is respelt with characters that Python's own
+    # identifier rules treat specially (not NFKC-stable: micro sign, ligature, mathematical bold; word characters that are not identifier
+    # characters: superscript, circled digit; plain non-ASCII letters)
+    qnames = list(dict.fromkeys(case["qn"])) if "'`" not in text0 else []       # (a literal holding a backtick: no textual respelling)
+    variants = [(text0, True)]
+    for k, ex in enumerate(EXOTIC):
+        if qnames and ex not in qnames:
+            q = qnames[k % len(qnames)]
+            variants.append((text0.replace("`" + q + "`", "`" + ex + "`"), False))
     bad, n = [], 0
-    for form in (text, spaced, "{" + text + "}", "{ " + spaced + "  }"):
-        n += 1
-        try:
-            toks = list(sanitize_tokens(tokenize(form)))
-            got = [t.token for t in toks]
-            if got != [text] or toks[0].kind.value != "python":
-                bad.append({"string": form, "why": "python-normal-form", "observed": got, "expected": [text]})
-                continue
-            f = Formula(form + " + zz", _ordering="none")
-            exprs = [[fac.expr for fac in t.factors] for t in f]
-            if exprs != [["1"], [text], ["zz"]]:
-                bad.append({"string": form, "why": "python-normal-form (factor of the parsed formula)", "observed": exprs, "expected": [["1"], [text], ["zz"]]})
-        except Exception as e:  # noqa
-            bad.append({"string": form, "why": "python-normal-form", "observed": type(e).__name__ + ": " + str(e)[:120], "expected": [text]})
+    for text, allforms in variants:
+        spaced = text.replace("(", "( ").replace(")", " )").replace(",", " ,")
+        for form in ((text, spaced, "{" + text + "}", "{ " + spaced + "  }") if allforms else (text, "{ " + spaced + "  }")):
+            n += 1
+            try:
+                toks = list(sanitize_tokens(tokenize(form)))
+                got = [t.token for t in toks]
+                if got != [text] or toks[0].kind.value != "python":
+                    bad.append({"string": form, "why": "python-normal-form", "observed": got, "expected": [text]})
+                    continue
+                f = Formula(form + " + zz", _ordering="none")
+                exprs = [[fac.expr for fac in t.factors] for t in f]
+                if exprs != [["1"], [text], ["zz"]]:
+                    bad.append({"string": form, "why": "python-normal-form (factor of the parsed formula)", "observed": exprs, "expected": [["1"], [text], ["zz"]]})
+            except Exception as e:  # noqa
+                bad.append({"string": form, "why": "python-normal-form", "observed": type(e).__name__ + ": " + str(e)[:120], "expected": [text]})
     return bad, n
 
 
